@@ -553,6 +553,40 @@ pub fn run(ctx: &Ctx) -> i32 {
         }
         let _ = std::fs::remove_dir_all(&base);
     });
+    // ---- entry-count sweep: a directory of exactly n eligible files analysed from inside itself, again (the first report is now
+    // entry n+1 of the listing), and from elsewhere: the three reports are equal for every n
+    let counts: Vec<usize> = ctx.tier.pick((1..=66).chain([97usize, 128, 129, 145, 256, 257]).collect(), (1..=300).chain([511usize, 512, 513, 1023, 1024, 1025]).collect());
+    let n_sweep = counts.len() as u64;
+    run_workload(ctx, &mut acc, "entry-count-sweep", n_sweep, |k, _rng, acc| {
+        let n = counts[k as usize % counts.len()];
+        let base = scratch_dir("c18cnt");
+        let tree = format!("{}/contracts", base);
+        std::fs::create_dir_all(&tree).unwrap();
+        for i in 0..n {
+            std::fs::write(format!("{}/F{:04}.sol", tree, i), format!("pragma solidity 0.8.17;\ncontract F{} {{\n  function f(uint256 a) public returns (uint256) {{\n    return a * 2 + {};\n  }}\n}}\n", i, i)).unwrap();
+        }
+        let elsewhere = format!("{}/elsewhere", base);
+        std::fs::create_dir_all(&elsewhere).unwrap();
+        let r1 = run_solstat(&tree, &["--path", "."]).ok().and_then(|o| if o.code == Some(0) { o.report } else { None });
+        let r2 = run_solstat(&tree, &["--path", "."]).ok().and_then(|o| if o.code == Some(0) { o.report } else { None });
+        let r3 = run_solstat(&elsewhere, &["--path", &tree]).ok().and_then(|o| if o.code == Some(0) { o.report } else { None });
+        acc.eval();
+        acc.cov("entry-count-sweep:directories");
+        acc.nontrivial_h(hash_str(&format!("cnt{}", n)));
+        match (r1, r2, r3) {
+            (Some(a), Some(b), Some(c)) => {
+                if a != b || b != c {
+                    acc.violation(
+                        "stale-influence:entry-count",
+                        json!({"eligible_files": n, "first_equals_second": a == b, "second_equals_run_from_elsewhere": b == c, "report_bytes": [a.len(), b.len(), c.len()],
+                               "note": "working directory = analysed directory; the second and third run find the first run's report in the listing"}),
+                    );
+                }
+            }
+            _ => acc.violation("valid-run-failed:entry-count-sweep", json!({"eligible_files": n})),
+        }
+        let _ = std::fs::remove_dir_all(&base);
+    });
     // ---- working directories in which the report cannot be written: whatever the run then does (fail, most likely),
     // the analysed tree and everything else around it stay as they were - the report has no other place to go
     let n_unw = ctx.tier.pick(8u64, 80u64);
